@@ -37,7 +37,7 @@ def open_findings():
 
 def seeded():
     rows = ["| seeded change | aimed at | what it changes | needs, to manifest | caught by (quick tier) | run but silent |", "|---|---|---|---|---|---|"]
-    n = caught = 0
+    n = caught = nobs = 0
     for d in sorted(glob.glob(os.path.join(HERE, "seeded", "*"))):
         mp = os.path.join(d, "meta.json")
         if not os.path.exists(mp):
@@ -45,13 +45,24 @@ def seeded():
         m = json.load(open(mp))
         n += 1
         cb = m.get("caught_by") or []
-        caught += bool(cb)
+        rc = m.get("recheck") or {}
+        obsolete = bool(rc.get("obsolete")) and not rc.get("caught_by")
+        if obsolete:
+            nobs += 1
+            cb_txt = "(was: %s) *neutralised by a later repair: its demonstration passes with the change applied to the current tree*" % (", ".join(cb) or "—")
+        else:
+            caught += bool(cb)
+            cb_txt = ", ".join(cb) or "**none**"
+            if m.get("ported"):
+                cb_txt += " (ported)"
         silent = [c for c in (m.get("checks_run") or {}) if c not in cb]
         cut = lambda s, k: (s[:k] + "…") if len(s) > k else s
         rows.append("| `%s` | %s | %s | %s | %s | %s |" % (os.path.basename(d), m.get("property", ""), cut(m.get("title", ""), 140).replace("|", "\\|"),
                                                      cut(m.get("needs_to_manifest", ""), 260).replace("|", "\\|").replace("\n", " "),
-                                                     ", ".join(cb) or "**none**", ", ".join(silent) or "—"))
-    return "%d seeded changes confirmed by the main session (compile, pass the existing tests, demonstration fails with / passes without the change); %d caught by at least one registered check.\n\n%s" % (n, caught, "\n".join(rows))
+                                                     cb_txt, ", ".join(silent) or "—"))
+    return ("%d seeded changes confirmed by the main session (compile, pass the existing tests, demonstration fails with / passes without the change); "
+            "on the current tree (last `tools/seeded_recheck.py` run) %d are caught by at least one registered check, %d no longer break anything "
+            "(a later repair at another site neutralised them), %d are not caught.\n\n%s" % (n, caught, nobs, n - caught - nobs, "\n".join(rows)))
 
 
 def main():
